@@ -117,6 +117,8 @@ KPAT = [
     lambda p: {"e0": p[0], "e1": p[1], "e2": p[2]},
     lambda p: {"e1": p[1], "default": p[2]},
     lambda p: {"e1": p[1]},
+    lambda p: {"default": p[2], "e1": p[1]},          # 'default' written first: the environment's own entry still wins
+    lambda p: {"e2": p[2], "default": p[0], "e0": p[1]},
 ]
 
 
@@ -144,7 +146,7 @@ def gen_reaction(tier):
     vols = [1.0, 8.0, 0.5]
     idx = 0
     for labels, a, b in pairs:
-        for pat in range(4):
+        for pat in range(6):
             for cenv in range(3):
                 for vi, vol in enumerate(vols):
                     for si_, st in enumerate(states[len(labels)]):
@@ -160,7 +162,7 @@ def gen_reaction(tier):
                                      else {"type": "graph", "nodes": [{"vol": vol, "env": cenv}], "edges": []})
                             spec = {"species": [{"label": l} for l in labels],
                                     "reactions": [{"eq": [mk(a), mk(b)], "kf": KPAT[pat]([2.0, 3.0, 5.0]),
-                                                   "kr": KPAT[(pat + 1) % 4]([7.0, 11.0, 13.0])}],
+                                                   "kr": KPAT[(pat + 1) % 6]([7.0, 11.0, 13.0])}],
                                     "envs": ENVS, "space": space, "state": st}
                             us3 = UNITS3[idx % 3] if tier == "thorough" else UNITS3[idx % 2]
                             spec["units"] = list(us3)
@@ -181,6 +183,7 @@ DPATS = [
     [{"e0": 2.0, "e1": 6.0}, 3.0],                       # two environments, second species homogeneous
     [{"e0": 2.0, "e1": 0.0}, {"e1": 5.0, "default": 7.0}],  # zero-diffusivity wall for species 0
     [{"e1": 4.0}, {"e0": 3.0}],                           # missing keys without default -> 0
+    [{"default": 5.0, "e1": 2.0}, {"default": 0.0, "e0": 3.0}],   # 'default' written first
 ]
 
 
@@ -196,7 +199,7 @@ def gen_diffusion_grid(tier):
         n = w * h * d
         for bc in bcs:
             for em in _env_maps(n):
-                for dp in (DPATS if tier == "thorough" else DPATS[:2]):
+                for dp in (DPATS if tier == "thorough" else [DPATS[0], DPATS[1], DPATS[3]][(k // 2) % 3:(k // 2) % 3 + 2] or DPATS[:2]):
                     k += 1
                     vol = [1.0, 8.0, 0.5][k % 3]
                     spec = {"species": [{"label": "A", "D": dp[0]}, {"label": "B", "D": dp[1]}], "reactions": [],
@@ -220,7 +223,7 @@ def gen_diffusion_graph(tier):
                     ii, jj = (i, j) if (b + mask) % 2 == 0 else (j, i)
                     edges.append([ii, jj, [1.5, 2.5, 3.5, 4.5, 5.5, 6.5][b], [0.75, 1.25, 1.75, 2.25, 2.75, 3.25][b]])
             for em in ([[0] * n] + ([[i % 2 for i in range(n)], [1 - (i % 2) for i in range(n)]] if n > 1 else [])):
-                for dp in DPATS[:2]:
+                for dp in (DPATS[0], DPATS[1], DPATS[3]):
                     k += 1
                     nodes = [{"vol": [1.0, 8.0, 0.5, 27.0][i], "env": em[i]} for i in range(n)]
                     spec = {"species": [{"label": "A", "D": dp[0]}, {"label": "B", "D": dp[1]}], "reactions": [],
@@ -443,12 +446,14 @@ def gen_big(tier):
     Dm = [{"e0": 2.0, "e1": 6.0, "e2": 1.0, "e3": 0.0, "e4": 3.0}, 1.5, {"e1": 4.0, "default": 0.5}, {"e2": 2.0}]
     k = 0
     for scale_name, sD, sk, vol in (("unit", 1.0, 1.0, 2.0), ("tiny-D", 1e-20, 1.0, 2.0), ("huge-D", 1e12, 1.0, 2.0),
-                                    ("tiny-k-huge-volume", 1.0, 1e-15, 1e9), ("huge-k-tiny-volume", 1.0, 1e9, 1e-6)):
+                                    ("tiny-k-huge-volume", 1.0, 1e-15, 1e9), ("huge-k-tiny-volume", 1.0, 1e9, 1e-6),
+                                    ("D-near-the-bottom-of-the-double-range", 1e-170, 0.0, 2.0),
+                                    ("D-near-the-top-of-the-double-range", 1e150, 0.0, 2.0)):
         def sc(v, f):
             return {a: b * f for a, b in v.items()} if isinstance(v, dict) else v * f
         species = [{"label": l, "D": sc(Dm[i], sD)} for i, l in enumerate("ABCD")]
         reactions = [{"eq": r["eq"], "kf": sc(r["kf"], sk), "kr": sc(r["kr"], sk)} for r in rx]
-        shapes = [(4, 3, 2), (2, 3, 4), (5, 1, 2)] if tier == "thorough" else [(4, 3, 2)]
+        shapes = [(4, 3, 2), (3, 2, 3), (4, 3, 3), (2, 3, 4), (3, 4, 3), (5, 1, 2)] if tier == "thorough" else [(4, 3, 2), (3, 2, 3), (4, 3, 3)]
         for (w, h, d) in shapes:
             n = w * h * d
             for bc in ({"x": "periodical", "z": "periodical"}, {}):
@@ -497,7 +502,7 @@ def _work(job):
 def run(ctx):
     global _CASES
     gens = [("reaction law: every reversible reaction over 2 species with 0..4 molecules per side (225) and over 3 "
-             "species with 0..2 per side (100) x 4 constant patterns x cell in each of 3 environments x 3 volumes x "
+             "species with 0..2 per side (100) x 6 constant patterns (incl. 'default' written before the environment's entry) x cell in each of 3 environments x 3 volumes x "
              "3 states x {grid, graph}" + (" [quick: fixed 1/9 sub-lattice of the non-reaction dimensions]" if ctx.tier == "quick" else ""),
              gen_reaction),
             ("diffusion law on grids: shapes w,h,d<=3 within the cell bound x boundary combinations x environment "
@@ -505,7 +510,7 @@ def run(ctx):
             ("diffusion law on graphs: all simple graphs on 1..4 nodes x environment maps x D patterns", gen_diffusion_graph),
             ("layout: all ordered pairs of an 8-reaction catalogue x 3 environment/cell configurations", gen_layout),
             ("beyond the small scope: 4 species / 3 reactions / 5 environments on 4x3x2-like grids and a 6-node graph, x 5 magnitude "
-             "regimes (D 1e-20..1e12, k 1e-15..1e9, volume 1e-6..1e9)", gen_big),
+             "regimes (D 1e-170..1e150, k 1e-15..1e9, volume 1e-6..1e9)", gen_big),
             ("histories: one system object modified through its public setters (state entry, kf, kr, D, cell environment, volume, "
              "chemostat flag) - every single modification and every ordered pair of 8 - then observed (kinetics + Euler step); and "
              "the same script object simulated before and after each modification of its system (parameter scan)", gen_history)]
